@@ -495,3 +495,6 @@ def run(ctx):
     r = ctx.inst("C13.R6", "the route's recipient is the caller's `to` or else the initiating user (direct: info.sender; hook: the cw20 envelope's sender) and the last hop pays that same account (shared with C11.R6, C11.R2)", floor=4)
     compose.pull(ctx, r, c11, {"C11.R6"}, "C13.R6", key_rx=r":(sender|to|hook-decode|anchor|floor)")
     compose.pull(ctx, r, c11, {"C11.R2"}, "C13.R6", key_rx=r":(receiver|hop-recipient|anchor|floor)")
+    from . import c12
+    r7 = ctx.inst("C13.R7", "quote == execution per hop: the pair prices a swap on the same reserves, amount and rate its simulation uses, and the router's simulation folds the per-hop quotes in route order (shared with C12.R1, C12.R3, C12.R6)", floor=6)
+    compose.pull(ctx, r7, c12, {"C12.R1", "C12.R3", "C12.R6"}, "C13.R7")
